@@ -186,3 +186,310 @@ Proof.
           (conj gc_ex_all_dropped gc_hist_held))))).
 Qed.
 Print Assumptions C05_sm_example.
+
+(** ** the reference-counted terminals of MTBDDs: the dynamic terminal manager
+       (model Mgr/Terminals.v mirroring crates/oxidd-manager-index/src/terminal_manager/dynamic.rs
+       and its callers in manager.rs; proved in Mgr/TerminalsProofs.v, TerminalsThms.v,
+       TerminalsGc.v).  State [tst] = inner nodes and owned inner edges of Mgr/Conc.v
+       ([ts_c]) + the terminal table id |-> (value, count) ([ts_tt]) + the free chain of the
+       [cap] slots ([ts_free]) + the multiset of owned terminal edges (thread, id) ([ts_own]).
+       [trc] excludes the unique table's own reference (stored value - 1). *)
+From OxiVerif Require Import Mgr.Terminals Mgr.TerminalsBase Mgr.TerminalsProofs Mgr.TerminalsThms
+  Mgr.TerminalsGc Mgr.TerminalsExamples.
+From Coq Require Import Permutation.
+
+(* the invariant spelled out: ids distinct, values distinct (hash consing), ids and free chain
+   partition the slots, owned edges valid, count = owner tokens + parent edges of stored nodes *)
+Theorem C05_term_inv_def : forall k nl cap s, MInv k nl cap s <->
+  (CInv k (tterms (ts_tt s)) nl (ts_c s) /\
+   (forall o, In o (cown (ts_c s)) -> exists id, eref (snd o) = RN id) /\
+   NoDup (map (fun p => tval (snd p)) (ts_tt s)) /\
+   NoDup (map fst (ts_tt s) ++ ts_free s) /\
+   (forall x, In x (map fst (ts_tt s) ++ ts_free s) -> (x < N.of_nat cap)%N) /\
+   length (ts_tt s) + length (ts_free s) = cap /\
+   (forall o, In o (ts_own s) -> exists nd, tfind (ts_tt s) (snd o) = Some nd) /\
+   (forall x nd, tfind (ts_tt s) x = Some nd ->
+      trc nd = N.of_nat (towners (ts_own s) x + tparents (cn (ts_c s)) x))).
+Proof.
+  intros k nl cap s. split.
+  - intros [H1 H2 H3 H4 H5 H6 H7 H8]. auto 10.
+  - intros [H1 [H2 [H3 [H4 [H5 [H6 [H7 H8]]]]]]]. constructor; assumption.
+Qed.
+Print Assumptions C05_term_inv_def.
+
+(* what is counted: the child edges of stored inner nodes / the owned edges that point to x *)
+Theorem C05_term_counting : forall t own x,
+  (0 < tparents t x <-> exists j nd e, In (j, nd) t /\ In e (cch nd) /\ eref e = RT x) /\
+  (0 < towners own x <-> exists o, In o own /\ snd o = x).
+Proof.
+  intros t own x. split; split.
+  - apply tparents_pos_In.
+  - intros [j [nd [e [H1 [H2 H3]]]]]. eapply In_tparents_pos; eauto.
+  - apply towners_pos_In.
+  - intros [o [H1 H2]]. eapply In_towners_pos; eauto.
+Qed.
+Print Assumptions C05_term_counting.
+
+(* the executable checker is sound *)
+Theorem C05_term_inv_checker : forall k nl cap s, minv_b k nl cap s = true -> MInv k nl cap s.
+Proof. exact minv_b_sound. Qed.
+Print Assumptions C05_term_inv_checker.
+
+(* preserved by every enabled action of every thread and of the collector, hence by every
+   interleaving, from the fresh manager of any capacity *)
+Theorem C05_term_step_inv : forall k nl cap s a s' r, MInv k nl cap s ->
+  tstep k nl s a = Some (s', r) -> MInv k nl cap s'.
+Proof. exact tstep_inv. Qed.
+Print Assumptions C05_term_step_inv.
+
+Theorem C05_term_run_inv : forall k nl cap sched s s', MInv k nl cap s ->
+  trun k nl s sched = Some s' -> MInv k nl cap s'.
+Proof. exact trun_inv. Qed.
+Print Assumptions C05_term_run_inv.
+
+Theorem C05_term_reachable_inv : forall k nl cap sched s,
+  trun k nl (tinit cap) sched = Some s -> MInv k nl cap s.
+Proof. exact treachable_inv. Qed.
+Print Assumptions C05_term_reachable_inv.
+
+(* ... also when whole collections (Manager::gc) are interleaved at arbitrary points *)
+Theorem C05_term_history_inv : forall k nl cap hist s,
+  thrun k nl (tinit cap) hist = Some s -> MInv k nl cap s.
+Proof. exact thistory_inv. Qed.
+Print Assumptions C05_term_history_inv.
+
+(* hash consing *)
+Theorem C05_term_canonical : forall k nl cap s x y nx ny, MInv k nl cap s ->
+  tfind (ts_tt s) x = Some nx -> tfind (ts_tt s) y = Some ny -> tval nx = tval ny -> x = y.
+Proof. exact terminals_canonical. Qed.
+Print Assumptions C05_term_canonical.
+
+(* a terminal disappears only when neither an owned edge nor a stored node refers to it *)
+Theorem C05_term_gc_only_unreferenced : forall k nl cap s x s' r, MInv k nl cap s ->
+  tstep k nl s (TGcTerm x) = Some (s', r) ->
+  towners (ts_own s) x = 0 /\ tparents (cn (ts_c s)) x = 0 /\
+  (forall o, In o (ts_own s) -> snd o <> x) /\
+  (forall j nd e, cfind (cn (ts_c s)) j = Some nd -> In e (cch nd) -> eref e <> RT x) /\
+  tfind (ts_tt s') x = None /\ In x (ts_free s') /\
+  ts_c s' = ts_c s /\ ts_own s' = ts_own s.
+Proof. exact tgc_term_safe. Qed.
+Print Assumptions C05_term_gc_only_unreferenced.
+
+Theorem C05_term_gc_enabled : forall k nl cap s x nd, MInv k nl cap s -> tfind (ts_tt s) x = Some nd ->
+  (trc nd = 0%N <-> towners (ts_own s) x = 0 /\ tparents (cn (ts_c s)) x = 0) /\
+  (trc nd = 0%N -> exists s', tstep k nl s (TGcTerm x) = Some (s', TRnone)).
+Proof. exact tgc_term_enabled. Qed.
+Print Assumptions C05_term_gc_enabled.
+
+(* no action removes or changes the value of a terminal that is in use; only the collector's
+   action on x itself removes x *)
+Theorem C05_term_in_use_kept : forall k nl cap s a s' r x nd, MInv k nl cap s ->
+  tstep k nl s a = Some (s', r) -> tfind (ts_tt s) x = Some nd -> trc nd <> 0%N ->
+  exists nd', tfind (ts_tt s') x = Some nd' /\ tval nd' = tval nd.
+Proof. exact tstep_frame. Qed.
+Print Assumptions C05_term_in_use_kept.
+
+Theorem C05_term_only_gc_removes : forall k nl cap s a s' r x nd, MInv k nl cap s ->
+  tstep k nl s a = Some (s', r) -> a <> TGcTerm x -> tfind (ts_tt s) x = Some nd ->
+  exists nd', tfind (ts_tt s') x = Some nd' /\ tval nd' = tval nd.
+Proof. exact tstep_keeps. Qed.
+Print Assumptions C05_term_only_gc_removes.
+
+(* an owner's release finds a positive count; a borrowable terminal edge has a positive count *)
+Theorem C05_term_release_never_underflows : forall k nl cap s tid x b, MInv k nl cap s ->
+  In (tid, x) (ts_own s) ->
+  exists nd s', tfind (ts_tt s) x = Some nd /\ trc nd <> 0%N /\
+    tstep k nl s (TIn (ARelease tid (mkEdge (RT x) b))) = Some (s', TRnone) /\
+    tfind (ts_tt s') x = Some (mkT (tval nd) (N.pred (trc nd))).
+Proof. exact t_release_safe. Qed.
+Print Assumptions C05_term_release_never_underflows.
+
+Theorem C05_term_borrow_live : forall k nl cap s e x, MInv k nl cap s -> eref e = RT x ->
+  t_can_borrow_b nl s e x = true -> exists nd, tfind (ts_tt s) x = Some nd /\ trc nd <> 0%N.
+Proof. exact t_borrow_live. Qed.
+Print Assumptions C05_term_borrow_live.
+
+(* get_edge: out of memory (state unchanged) iff the value is absent and all cap slots are in
+   use; otherwise the caller owns an edge to THE terminal with the value: the stored one
+   (count + 1) or, only if there is none, a newly written entry with count 1 in the slot at
+   the head of the free chain *)
+Theorem C05_term_get_result : forall k nl cap s tid v s' r, MInv k nl cap s ->
+  tstep k nl s (TGet tid v) = Some (s', r) ->
+  (r = TRoom /\ s' = s /\ tfind_val (ts_tt s) v = None /\ length (ts_tt s) = cap) \/
+  (exists x, r = TRterm x /\ In (tid, x) (ts_own s') /\ ts_c s' = ts_c s /\
+     ((exists nd, tfind (ts_tt s) x = Some nd /\ tval nd = v /\
+                  tfind (ts_tt s') x = Some (mkT v (N.succ (trc nd))) /\ ts_free s' = ts_free s) \/
+      (tfind_val (ts_tt s) v = None /\ tfind (ts_tt s) x = None /\
+       ts_free s = x :: ts_free s' /\ ts_tt s' = (x, mkT v 1%N) :: ts_tt s))).
+Proof. exact tget_result. Qed.
+Print Assumptions C05_term_get_result.
+
+Theorem C05_term_get_oom_iff : forall k nl cap s tid v, MInv k nl cap s ->
+  (tstep k nl s (TGet tid v) = Some (s, TRoom) <->
+   tfind_val (ts_tt s) v = None /\ length (ts_tt s) = cap).
+Proof. exact tget_oom_iff. Qed.
+Print Assumptions C05_term_get_oom_iff.
+
+Theorem C05_term_get_agree : forall k nl cap s x nd tid, MInv k nl cap s ->
+  tfind (ts_tt s) x = Some nd -> exists s', tstep k nl s (TGet tid (tval nd)) = Some (s', TRterm x).
+Proof. exact tget_agree. Qed.
+Print Assumptions C05_term_get_agree.
+
+Theorem C05_term_get_twice : forall k nl cap s t1 t2 v1 v2 s1 s2 x1 x2, MInv k nl cap s ->
+  tstep k nl s (TGet t1 v1) = Some (s1, TRterm x1) -> tstep k nl s1 (TGet t2 v2) = Some (s2, TRterm x2) ->
+  (x1 = x2 <-> v1 = v2).
+Proof. exact tget_twice. Qed.
+Print Assumptions C05_term_get_twice.
+
+(* the same value yields the same id until that terminal is collected, whatever all threads
+   do in between; in particular while some thread sits on an edge to it *)
+Theorem C05_term_get_stable : forall k nl cap sched s s' v x, MInv k nl cap s ->
+  tfind_val (ts_tt s) v = Some x -> trun k nl s sched = Some s' -> ~ In (TGcTerm x) sched ->
+  tfind_val (ts_tt s') v = Some x /\
+  forall tid, exists s'', tstep k nl s' (TGet tid v) = Some (s'', TRterm x).
+Proof. exact trun_get_stable. Qed.
+Print Assumptions C05_term_get_stable.
+
+Theorem C05_term_get_idle : forall k nl cap sched s s' tid x nd, MInv k nl cap s ->
+  trun k nl s sched = Some s' -> (forall a, In a sched -> tact_tid a <> Some tid) ->
+  In (tid, x) (ts_own s) -> tfind (ts_tt s) x = Some nd ->
+  In (tid, x) (ts_own s') /\
+  (exists nd', tfind (ts_tt s') x = Some nd' /\ tval nd' = tval nd /\ trc nd' <> 0%N) /\
+  forall t, exists s'', tstep k nl s' (TGet t (tval nd)) = Some (s'', TRterm x).
+Proof. exact trun_get_idle. Qed.
+Print Assumptions C05_term_get_idle.
+
+(* re-creation of a collected value: a newly written entry with count 1 *)
+Theorem C05_term_get_after_gc_fresh : forall k nl cap s x nd s1 r1 tid, MInv k nl cap s ->
+  tfind (ts_tt s) x = Some nd -> tstep k nl s (TGcTerm x) = Some (s1, r1) ->
+  tfind_val (ts_tt s1) (tval nd) = None /\
+  exists s2, tstep k nl s1 (TGet tid (tval nd)) = Some (s2, TRterm x) /\
+             ts_tt s2 = (x, mkT (tval nd) 1%N) :: ts_tt s1 /\ ts_free s2 = ts_free s.
+Proof. exact tget_after_gc_fresh. Qed.
+Print Assumptions C05_term_get_after_gc_fresh.
+
+(* DynamicTerminalManager::gc, entries visited in any order covering the table: removes
+   exactly the terminals without owner and parent, everything else is unchanged *)
+Theorem C05_term_gc_exact : forall k nl cap ord s, MInv k nl cap s ->
+  (forall x, In x (map fst (ts_tt s)) -> In x ord) ->
+  MInv k nl cap (tgc_in k nl s ord) /\ ts_c (tgc_in k nl s ord) = ts_c s /\
+  ts_own (tgc_in k nl s ord) = ts_own s /\
+  (forall x nd, tfind (ts_tt (tgc_in k nl s ord)) x = Some nd <->
+                tfind (ts_tt s) x = Some nd /\ trc nd <> 0%N) /\
+  (forall x, (exists nd, tfind (ts_tt (tgc_in k nl s ord)) x = Some nd) <->
+             (exists nd, tfind (ts_tt s) x = Some nd) /\
+             (0 < towners (ts_own s) x \/ 0 < tparents (cn (ts_c s)) x)).
+Proof. exact tgc_in_spec. Qed.
+Print Assumptions C05_term_gc_exact.
+
+Theorem C05_term_gc_idem : forall k nl cap s, MInv k nl cap s -> tgc k nl (tgc k nl s) = tgc k nl s.
+Proof. exact tgc_idem. Qed.
+Print Assumptions C05_term_gc_idem.
+
+(* its return value = number of removed entries = number of slots given back *)
+Theorem C05_term_gc_count : forall k nl cap s, MInv k nl cap s ->
+  length (ts_tt s) = length (ts_tt (tgc k nl s)) + tgc_count k nl s /\
+  length (ts_free (tgc k nl s)) = length (ts_free s) + tgc_count k nl s.
+Proof. exact tgc_count_free. Qed.
+Print Assumptions C05_term_gc_count.
+
+(* Manager::gc = sweep of the inner levels (exactly `collect` of Mgr/ConcGc.v on the inner
+   nodes; terminal ids, values, free chain and tokens untouched) followed by the terminal
+   manager's gc; it is a schedule of collector actions of the model *)
+Theorem C05_term_collect_inner : forall k nl s,
+  ts_c (tcollect_inner k nl s) = collect k (tterms (ts_tt s)) nl (ts_c s) /\
+  tterms (ts_tt (tcollect_inner k nl s)) = tterms (ts_tt s) /\
+  map fst (ts_tt (tcollect_inner k nl s)) = map fst (ts_tt s) /\
+  ts_own (tcollect_inner k nl s) = ts_own s /\ ts_free (tcollect_inner k nl s) = ts_free s /\
+  (forall x, option_map tval (tfind (ts_tt (tcollect_inner k nl s)) x) = option_map tval (tfind (ts_tt s) x)).
+Proof. exact tcollect_inner_c. Qed.
+Print Assumptions C05_term_collect_inner.
+
+Theorem C05_term_collect_is_schedule : forall k nl s,
+  exists sched, trun k nl s sched = Some (tcollect k nl s) /\
+    forall a, In a sched -> (exists id, a = TIn (AGcNode id)) \/ (exists x, a = TGcTerm x).
+Proof. exact tcollect_is_run. Qed.
+Print Assumptions C05_term_collect_is_schedule.
+
+(* a terminal survives Manager::gc iff an owned terminal edge points to it or it is a child
+   of an inner node reachable from an owned edge; survivors keep id and value *)
+Theorem C05_term_collect_exact : forall k nl cap s x, MInv k nl cap s ->
+  ((exists nd', tfind (ts_tt (tcollect k nl s)) x = Some nd') <->
+   (exists nd, tfind (ts_tt s) x = Some nd) /\
+   (0 < towners (ts_own s) x \/
+    exists j nd e, cfind (cn (ts_c s)) j = Some nd /\
+                   (exists o, In o (cown (ts_c s)) /\ creach (cn (ts_c s)) (eref (snd o)) (RN j)) /\
+                   In e (cch nd) /\ eref e = RT x)) /\
+  (forall nd', tfind (ts_tt (tcollect k nl s)) x = Some nd' ->
+     exists nd, tfind (ts_tt s) x = Some nd /\ tval nd' = tval nd).
+Proof. exact tcollect_exact. Qed.
+Print Assumptions C05_term_collect_exact.
+
+Theorem C05_term_collect_keeps : forall k nl cap s, MInv k nl cap s ->
+  ts_own (tcollect k nl s) = ts_own s /\ cown (ts_c (tcollect k nl s)) = cown (ts_c s) /\
+  ts_c (tcollect k nl s) = collect k (tterms (ts_tt s)) nl (ts_c s) /\
+  forall tid x nd, In (tid, x) (ts_own s) -> tfind (ts_tt s) x = Some nd ->
+    exists nd', tfind (ts_tt (tcollect k nl s)) x = Some nd' /\ tval nd' = tval nd.
+Proof. exact tcollect_keeps. Qed.
+Print Assumptions C05_term_collect_keeps.
+
+Theorem C05_term_collect_inv : forall k nl cap s, MInv k nl cap s -> MInv k nl cap (tcollect k nl s).
+Proof. exact tcollect_inv. Qed.
+Print Assumptions C05_term_collect_inv.
+
+(* all handles dropped: no inner node, no terminal, all cap slots free again *)
+Theorem C05_term_collect_all_dropped : forall k nl cap s, MInv k nl cap s ->
+  cown (ts_c s) = [] -> ts_own s = [] ->
+  ts_c (tcollect k nl s) = cempty /\ ts_tt (tcollect k nl s) = [] /\ ts_own (tcollect k nl s) = [] /\
+  length (ts_free (tcollect k nl s)) = cap /\
+  Permutation (ts_free (tcollect k nl s)) (ts_free (tinit cap)).
+Proof. exact tcollect_all_dropped. Qed.
+Print Assumptions C05_term_collect_all_dropped.
+
+(* the iterator yields every stored terminal once (len() many); its retain and the
+   consumer's drop_edge cancel exactly -- per item, for a complete iteration, and in the
+   interleaved pattern `for t in m.terminals() { ..; m.drop_edge(t) }` *)
+Theorem C05_term_iter_ids : forall k nl cap s, MInv k nl cap s ->
+  NoDup (titer_ids s) /\ length (titer_ids s) = tlen s /\
+  forall x, In x (titer_ids s) <-> exists nd, tfind (ts_tt s) x = Some nd.
+Proof. exact titer_ids_spec. Qed.
+Print Assumptions C05_term_iter_ids.
+
+Theorem C05_term_iter_item_release : forall k nl s tid x s1 r b,
+  tstep k nl s (TIterItem tid x) = Some (s1, r) ->
+  r = TRterm x /\ tstep k nl s1 (TIn (ARelease tid (mkEdge (RT x) b))) = Some (s, TRnone).
+Proof. exact titer_item_release. Qed.
+Print Assumptions C05_term_iter_item_release.
+
+Theorem C05_term_iter_all_release : forall k nl xs s tid,
+  (forall x, In x xs -> exists nd, tfind (ts_tt s) x = Some nd) ->
+  trun k nl s (iter_acts tid xs ++ drop_acts tid (rev xs)) = Some s.
+Proof. exact titer_all_release. Qed.
+Print Assumptions C05_term_iter_all_release.
+
+Theorem C05_term_iter_interleaved_release : forall k nl xs s tid,
+  (forall x, In x xs -> exists nd, tfind (ts_tt s) x = Some nd) ->
+  trun k nl s (flat_map (fun x => [TIterItem tid x; TIn (ARelease tid (mkEdge (RT x) false))]) xs) = Some s.
+Proof. exact titer_interleaved_release. Qed.
+Print Assumptions C05_term_iter_interleaved_release.
+
+(* non-vacuity: a reachable MTBDD state (3 slots, all in use: values 5, 7 held by a handle and
+   an inner node, value 9 unreferenced): get of a new value fails, get of a stored one finds
+   it, the collector may free only the unreferenced terminal, Manager::gc frees exactly it,
+   the value is re-created in the freed slot, and after dropping everything the manager is
+   empty with all slots free *)
+Theorem C05_term_example :
+  trun KMtbdd 1 (tinit 3) tex_sched = Some tex /\ MInv KMtbdd 1 3 tex /\ minv_b KMtbdd 1 3 tex = true /\
+  tstep KMtbdd 1 tex (TGet 3 11) = Some (tex, TRoom) /\
+  (exists s', tstep KMtbdd 1 tex (TGet 3 7) = Some (s', TRterm 1)) /\
+  (tstep KMtbdd 1 tex (TGcTerm 0) = None /\ tstep KMtbdd 1 tex (TGcTerm 1) = None /\
+   exists s', tstep KMtbdd 1 tex (TGcTerm 2) = Some (s', TRnone)) /\
+  (tcollect KMtbdd 1 tex = tex_after /\ tgc_count KMtbdd 1 tex = 1) /\
+  (exists s', tstep KMtbdd 1 tex_after (TGet 2 9) = Some (s', TRterm 2) /\
+              tfind (ts_tt s') 2 = Some (mkT 9 1)) /\
+  thrun KMtbdd 1 (tinit 3) tex_hist = Some (mkTst cempty [] [0%N; 1%N; 2%N] []).
+Proof.
+  exact (conj tex_run (conj tex_inv (conj tex_inv_b (conj tex_oom (conj tex_found
+          (conj tex_gc_enabled (conj tex_collect (conj tex_recreate tex_all_dropped)))))))).
+Qed.
+Print Assumptions C05_term_example.
